@@ -101,3 +101,49 @@ pub fn quiet_panics() {
         }
     }));
 }
+
+
+// ---------------------------------------------------------------- watchdog
+// A call into the code under test that never returns and draws no random numbers (so the draw budget cannot end
+// it) would hang the recorder.  While a call is in flight the recorder publishes a deadline and what it is doing;
+// a watchdog thread that sees the deadline pass appends a `watchdog` event (response Hang) to the trace file of
+// the running history and ends the process normally: the events recorded so far are validated as usual, and the
+// trace specification has no action that matches a call that did not return.
+pub static WATCH_DEADLINE_MS: std::sync::atomic::AtomicU64 = std::sync::atomic::AtomicU64::new(0);
+pub static WATCH_CTX: std::sync::Mutex<(String, String)> = std::sync::Mutex::new((String::new(), String::new()));
+static WATCH_START: std::sync::OnceLock<std::time::Instant> = std::sync::OnceLock::new();
+
+fn now_ms() -> u64 {
+    WATCH_START.get_or_init(std::time::Instant::now).elapsed().as_millis() as u64 + 1
+}
+
+/// The recorder is about to call into the code under test (`what` = the op as JSON, `path` = trace file).
+pub fn watch_begin(path: &str, what: &str, limit_ms: u64) {
+    if let Ok(mut c) = WATCH_CTX.lock() {
+        *c = (path.to_string(), what.to_string());
+    }
+    WATCH_DEADLINE_MS.store(now_ms() + limit_ms, std::sync::atomic::Ordering::SeqCst);
+}
+
+pub fn watch_end() {
+    WATCH_DEADLINE_MS.store(0, std::sync::atomic::Ordering::SeqCst);
+}
+
+pub fn spawn_watchdog() {
+    let _ = now_ms();
+    std::thread::spawn(|| loop {
+        std::thread::sleep(std::time::Duration::from_millis(200));
+        let d = WATCH_DEADLINE_MS.load(std::sync::atomic::Ordering::SeqCst);
+        if d != 0 && now_ms() > d {
+            let (path, what) = WATCH_CTX.lock().map(|c| c.clone()).unwrap_or_default();
+            let ev = serde_json::json!({"ev": "watchdog", "k": "mac", "opj": what,
+                "resp": {"k": "Hang", "v": 0, "cnt": [], "s": "the call did not return (watchdog; no random draws were made)"}});
+            if let Ok(mut f) = std::fs::OpenOptions::new().append(true).open(&path) {
+                use std::io::Write;
+                let _ = writeln!(f, "{ev}");
+            }
+            println!("events=0 histories=0 watchdog=1");
+            std::process::exit(0);
+        }
+    });
+}
